@@ -144,6 +144,10 @@ pub struct Opts {
 /// Expand one history: successors (each from a fresh replay) and state-level side checks.
 pub fn expand(cfg: &SimConfig, hist: &[Ev], opts: &Opts) -> Expansion {
     let mut ex = Expansion::default();
+    let _g = {
+        let (c, h) = (cfg.clone(), hist.to_vec());
+        crate::evidence::watchdog::enter(move || super::replay_json(&c, &h))
+    };
     let sim = Sim::replay(cfg, hist);
     ex.replays += 1;
     ex.events += hist.len() as u64;
@@ -183,6 +187,7 @@ pub fn expand(cfg: &SimConfig, hist: &[Ev], opts: &Opts) -> Expansion {
             let mut sim = Sim::replay(cfg, hist);
             ex.replays += 1;
             ex.events += hist.len() as u64 + 1;
+            let before = fp_of(&canon(&sim));
             let rep = sim.apply(Ev::Poll(r));
             ex.spurious_probes += 1;
             if rep.poll_result.as_deref() != Some("pending") {
@@ -190,6 +195,14 @@ pub fn expand(cfg: &SimConfig, hist: &[Ev], opts: &Opts) -> Expansion {
                     prop: "C03",
                     sub: "lost-wakeup",
                     msg: format!("r{r} was not woken, yet polling it again yields {:?}: a state change that let it proceed did not wake it", rep.poll_result),
+                });
+            } else if fp_of(&canon(&sim)) != before {
+                // still pending, but the poll moved the request on (took a delivered connection,
+                // started an exchange, ...): it could proceed and nobody told it
+                ex.state_viols.push(Viol {
+                    prop: "C03",
+                    sub: "lost-wakeup",
+                    msg: format!("r{r} was not woken, yet polling it again changes the state ({}): a state change that let it proceed did not wake it", rep.obs.join("; ")),
                 });
             }
         }
